@@ -1017,3 +1017,75 @@ Proof.
   - eapply inv8_raw; eauto; [eapply reachf_inv|eapply reachf_inv_used]; eauto.
   - eapply inv8_settle; eauto; [eapply reachf_inv|eapply reachf_inv_used]; eauto.
 Qed.
+
+(** * C08.1 no crash *)
+Lemma wg0_dp_rd s : inv2 s -> wg s = 0 ->
+  (dp s = DExited \/ dp s = DNone) /\ (rd s = RExited \/ rd s = RNone).
+Proof.
+  intros [_ G] Z. rewrite Z in G. split.
+  - destruct (dp s); cbn in G; auto; lia.
+  - destruct (rd s); cbn in G; auto; lia.
+Qed.
+
+Lemma nil_unit_silent s u un : inv s -> invt s -> nth_error (units s) u = Some un -> u_chok un = false ->
+  responses (unit_tasks s u) = [].
+Proof.
+  intros I It E Ck. apply responses_nil_iff. intros t Ht. unfold unit_tasks in Ht.
+  apply filter_In in Ht as [Hi Hu]. apply Nat.eqb_eq in Hu. apply In_nth_error in Hi as (k & Ek).
+  eapply (it_nil _ It); eauto. rewrite Hu. exact E.
+Qed.
+
+Inductive crash_site : crashkind -> Prop :=
+| cs_nil : crash_site CrNilChannel | cs_send : crash_site CrSendOnClosedWork
+| cs_close : crash_site CrCloseOfClosedWork | cs_queue : crash_site CrQueueNotEmpty
+| cs_bar : crash_site CrNegativeBarrier.
+
+Lemma raw_no_crash c s l s' os : reachf c s -> crash s = None -> step_raw s l = Some (s', os) -> crash s' = None.
+Proof.
+  intros R Cr H.
+  pose proof (reachf_inv _ _ R) as I. pose proof (reachf_inv_used _ _ R) as Iu.
+  destruct (reachf_inv8 _ _ R) as [Ic It N].
+  pose proof (raw_tchg _ _ _ _ I H) as X.
+  pose proof (raw_ctl _ _ _ _ I H) as CE.
+  destruct CE as [L Rn Wg E' | k s0 s1 Sc Rn H0 P H1 | f L Rd Rn E' | f i L Rd Hf Rn S5 C0 Ri Wa Hq
+                | L D E' | u L D E' | u un s1 L E Su E1 Hs | S5 Cp Wa Hc Ln].
+  - subst s'. exact Cr.
+  - assert (F0 : work_closed s0 = work_closed s /\ crash s0 = crash s).
+    { destruct H0 as [->|(n & ->)]; cbn; auto. }
+    destruct F0 as (F1 & F2).
+    assert (C1 : crash s1 = None). { rewrite (sr_crash _ _ _ P), F1, (ic_wc _ Ic Rn), F2. exact Cr. }
+    destruct H1 as [->|(_ & ->)]; exact C1.
+  - subst s'. exact Cr.
+  - destruct Hq as [(_ & ->)|(b & keep & _ & _ & ->)]; auto. rewrite (ic_wc _ Ic Rn). exact Cr.
+  - subst s'. rewrite <- Cr. apply dequeue_nontask_like.
+  - subst s'. exact Cr.
+  - destruct Hs as [(Ck & _)|(_ & ->)].
+    + exfalso. apply (reachf_inv_deliv _ _ R _ _ E Su). eapply nil_unit_silent; eauto.
+    + cbn. rewrite E1. pose proof (nontask_release (unit_tasks s u) s) as G. apply nontask_fields in G.
+      destruct G as (N1 & N2 & N3 & N4 & N5 & N6 & N7 & N8 & N9 & N10 & N11 & N12 & N13 & N14 & N15 & N16 & N17 &
+                  N18 & N19 & N20 & N21 & N22 & N23 & N24 & N25). congruence.
+  - destruct Hc as [(-> & _)|(k & t & o & L & E & St & Nt & [(_ & ->)|(B & _)])]; auto.
+    exfalso. unfold ctlp in Cp. injection Cp as _ _ _ _ U. subst l.
+    pose proof (invn_handled _ _ _ _ _ I Iu It N X Ln U E St Nt) as Cn. unfold invn in N. lia.
+Qed.
+
+Theorem no_crash_f c s : reachf c s -> crash s = None.
+Proof.
+  induction 1 as [|s l s' os R IH Cr H|s s' os R IH H].
+  - reflexivity.
+  - eapply raw_no_crash; eauto.
+  - pose proof H as H0. apply settle1_inv in H. destruct H; cbn; auto.
+    + rewrite <- IH. apply dequeue_nontask_like.
+    + exfalso. destruct (wg0_dp_rd _ (reachf_inv2 _ _ R) H1) as [Hd _].
+      destruct (ic_dpx _ (i8_c _ (reachf_inv8 _ _ R)) Hd). auto.
+Qed.
+
+Theorem no_crash c s : reach c s -> crash s = None.
+Proof. intros R. apply (no_crash_f c). apply reach_reachf; auto. Qed.
+
+Theorem no_crash_trace c tr s oss : run (init_of c) tr = Some (s, oss) -> crash s = None.
+Proof. intros H. eapply no_crash, run_reach; eauto. constructor. Qed.
+
+(* per crash kind, at the critical section that would raise it *)
+Theorem no_crash_step c s l s' os : reach c s -> step s l = Some (s', os) -> crash s' = None.
+Proof. intros R H. eapply no_crash. eapply reach_step; eauto. Qed.
